@@ -75,11 +75,40 @@ def generate(rng, tier):
                     newparent = parent[:impl_p[-1]] + [first] + parent[impl_p[-1] + 1:] + [second]
                     c = replace_at(c, impl_p[:-1], newparent)
             c[1] = c[1] + '-' + kind
+        if r >= 0.3 and r < 0.42:
+            c2 = shadow_base_fn(rng, c)
+            if c2 is not None:
+                c = c2; c[1] = c[1] + '-shadow'
         out.append(c)
     from .c11 import gen_case
     out += [gen_case(rng, 'clash%d' % i) for i in range(n // 6)]
     from .. import o4exec
     return out + o4exec.exec_worlds(rng, 10 if tier == 'quick' else 200, **dict(p_impl=0.85, p_vftable=0.2, p_cc=0.5))
+
+def shadow_base_fn(rng, c):
+    """rename an impl function of a derived type to the name of a public impl function of one of its base types: the declared
+    function can then not be emitted under its name (the forwarder has it) – the description must be rejected, not accepted with
+    the declared function dropped"""
+    impl_of = {}
+    for p, nd in all_nodes(c):
+        if tag(nd) == 'impl':
+            impl_of.setdefault(nd[1], []).append((p, nd))
+    cands = []
+    for p, d in all_nodes(c):
+        if tag(d) == 'def' and def_is_type(d) and def_name(d) in impl_of:
+            for st in type_stmts(d):
+                if stmt_is_field(st) and has_ident(st[4][1:], 'base') and tag(st[3]) == 'id' and st[3][1] in impl_of:
+                    bfns = [f for (_, im) in impl_of[st[3][1]] for f in im[3:] if fn_pub(f) and not fn_name(f).startswith('_')]
+                    if bfns:
+                        cands.append((def_name(d), rng.choice(bfns)))
+    if not cands:
+        return None
+    dname, bf = rng.choice(cands)
+    ip, im = impl_of[dname][0]
+    if len(im) < 4:
+        return None
+    f2 = list(im[3]); f2[2] = fn_name(bf)
+    return replace_at(c, ip, im[:3] + [f2] + im[4:])
 
 def mkopt_(x):
     return [S('some'), x]
@@ -108,6 +137,8 @@ def judge(c, impl, model):
                     if not isinstance(a, Sym) and mentions(a[2], 'Missing'): must_reject = must_reject or 'unresolved-parameter'
                 if fn_ret(f) is not None and mentions(fn_ret(f), 'Missing'): must_reject = must_reject or 'unresolved-return'
                 decls.append((mp, im[1], f))
+    if cid.endswith('-shadow'):
+        must_reject = must_reject or 'function-name-taken-by-base-function'
     if must_reject:
         count(info, 'must-reject:' + must_reject)
         if cls == 'ok':
